@@ -6,7 +6,7 @@ set -u
 M=$(readlink -f "$1"); WT=$(readlink -f "$2"); shift 2
 export GOFLAGS=-mod=mod GOPROXY=off GOSUMDB=off GOTOOLCHAIN=local
 NAME=$(basename $(dirname "$M"))_$(basename "$M")
-OUT=/tmp/mut/results/$NAME; mkdir -p "$OUT"
+OUT=/tmp/mut/results/${RPREFIX:-}$NAME; mkdir -p "$OUT"
 cd "$WT" || exit 9
 git checkout -q -- . && git clean -fdq
 # where does the demo go?
